@@ -161,6 +161,19 @@ func (e *Eng) encodeFunction(fn *ssa.Function, con *Contract) (res *FnResult) {
 	}
 	rets := f.encodeBody(f.top, st, "true")
 
+	// a call-site assertion that names a call the function does not make (any
+	// more) cannot be checked: that is a failed obligation, not silence
+	for i, ca := range con.CallAssert {
+		if !f.assertMatched[i] && strings.TrimSpace(ca.Clause.Text) != "false" { // (`false` = must-not-call: no call is the point)
+			ord := ""
+			if ca.Ord != 0 {
+				ord = fmt.Sprintf("#%d", ca.Ord)
+			}
+			c.oblige(Item{Guard: "true", Formula: "false", Name: res.Key + fmt.Sprintf("/at-call:%s%s:%s:call-exists", ca.Callee, ord, ca.Clause.Label), Class: "assert",
+				Pos: token.Position{Filename: con.File, Line: ca.Clause.Line}, Text: "the function calls " + ca.Callee + ord + " (the call-site assertion '" + ca.Clause.Label + "' is about that call)"})
+		}
+	}
+
 	resNames := resultNames(e, res.Key)
 	for ri, r := range rets {
 		cur := r.st
